@@ -70,7 +70,7 @@ def cases(tier):
                          per_job=r.choice([1, 2, 10]), per_file=r.choice([2, 3, 10000000])), LEARNERS))
     # wide on both sides in one event, at any position
     # (a million cells per case: one case and the two buffer-owning learners in the quick tier)
-    for k in range(1 if tier == 'quick' else 6):
+    for k in range(1 if tier == 'quick' else 3):
         nc, no = (1400, 1100) if tier == 'quick' else (r.choice([1025, 1500]), r.choice([1025, 1100]))
         es = gen.wide_joint(r, nc, no, n_events=3, pos=r.choice([0, 1, 2]))
         out.append((dict(gen.params(r), events=es, policy=r.choice(['error', 'dedup', 'keep']), stream='wide_joint',
